@@ -202,7 +202,7 @@ var nativeModel = map[string]bool{
 	"fmt.Errorf": true, "fmt.Sprintf": true, "errors.New": true, "errors.Is": true, "fmt.Sprint": true,
 	"strconv.Itoa": true, "strconv.Atoi": true, "unicode.IsControl": true, "unicode.IsSpace": true,
 	"unsafe.String": true, "unsafe.SliceData": true, "unsafe.StringData": true,
-	"strings.Compare": true, "strings.ContainsRune": true, "strings.IndexRune": true,
+	"strings.Compare": true, "strings.ContainsRune": true, "strings.IndexRune": true, "strings.Join": true,
 	"(time.Time).After": true, "(time.Time).Before": true, "(time.Time).IsZero": true, "(time.Time).Equal": true,
 	"(time.Time).Add": true, "(time.Time).Sub": true, "time.Now": true, "time.Since": true,
 	"errors.As": true, "errors.Join": true,
@@ -949,6 +949,28 @@ func (fg *FnGen) native(fr *Frame, d callDesc, c *ssa.CallCommon, args []*Term, 
 		return one(StrPrefixOf(args[1], args[0]))
 	case "strings.HasSuffix":
 		return one(StrSuffixOf(args[1], args[0]))
+	case "strings.Join":
+		// exact for a slice of syntactically known small length (the []string{a, b} idiom); otherwise an arbitrary string
+		if n := SLen(args[0]); n.isSmallInt() && n.Int >= 0 && n.Int <= 4 {
+			mn, ms, _ := fg.memVar(types.Typ[types.String])
+			mem := fg.lookup(st, mn, ms)
+			arr := Select(mem, SBase(args[0]))
+			var parts []*Term
+			for i := int64(0); i < n.Int; i++ {
+				if i > 0 {
+					parts = append(parts, args[1])
+				}
+				parts = append(parts, Select(arr, Add(SOff(args[0]), IntLit(i))))
+			}
+			if len(parts) == 0 {
+				return one(StrLit(""))
+			}
+			if len(parts) == 1 {
+				return one(parts[0])
+			}
+			return one(StrCat(parts...))
+		}
+		return one(fresh(SString))
 	case "strings.Contains":
 		return one(StrContains(args[0], args[1]))
 	case "strings.TrimPrefix":
